@@ -72,6 +72,12 @@ def dense_src(rng):
     return {"kind": "cfg_rules", "rules": [list(r) for r in rules]}
 
 
+def eps_as_terminal(src):
+    """the same grammar with the terminal b replaced by the GLYPH ε used as an ordinary terminal; the grammar's
+    epsilon symbol is '_' (a grammar may use any symbol as its epsilon)"""
+    return dict(src, rules=[[l, r.replace("b", "ε")] for l, r in src["rules"]], eps="_")
+
+
 def nondegenerate(G):
     """every variable derives a non-empty word (the domain of C13)"""
     from gambatools.cfg import Variable
